@@ -836,6 +836,14 @@ class Analysis:
             p = ptr()
             inner = self.read_cell(st, p[1], (), None) if p and not p[2].t else args[0]
             return ("B", ("not", ("is_some", inner)))
+        if fn == "alloc::vec::Vec::<T, A>::len" and args and args[0][0] == "P" and not args[0][2].t:
+            # the length is a function of the Vec's current value (a fresh value after every call that may mutate it): two reads of an
+            # unchanged Vec agree, and `into_boxed_slice` carries it over
+            v = self.read_cell(st, args[0][1], (), None)
+            cs.no_effects = True
+            return ("I", Poly.atom(("vlen", v)))
+        if fn == "alloc::vec::Vec::<T, A>::into_boxed_slice" and args:
+            return ("P", ("obj", ("ret", ("ret", cs.bb))), Poly.const(0), Poly.atom(("vlen", args[0])))
         if fn in ("core::result::Result::<T, E>::is_ok", "core::result::Result::<T, E>::is_err"):
             p = ptr()
             inner = self.read_cell(st, p[1], (), None) if p and not p[2].t else args[0]
